@@ -93,6 +93,68 @@ def series(tree, name):
             f"    let c : Rat := {sign} / ((Ctx.fact (2 * {nv} + {c - 1}) : Nat) : Rat)\n    (C.add st.1 (C.smul c p), p)) ({op0}, {p0})).1\n")
 
 
+def exp_series(tree):
+    """`exp`: statement by statement (initial value, early return, scaling loops, scaled operand, guarded Taylor loop with `break`,
+    repeated squaring); the norm estimate and the update expression are read from the source"""
+    f = find(tree, 'exp')
+    if [a.arg for a in f.args.args] != ['x', 'max_order']:
+        raise Refuse("parameters")
+    b = [s for s in f.body if not (isinstance(s, ast.Expr) and isinstance(s.value, ast.Constant))]
+    src = [ast.unparse(s) for s in b]
+    if len(b) != 11:
+        raise Refuse(f"exp has {len(b)} statements, 11 expected")
+    one0 = '(C.add C.one (C.smul 0 x))'
+    if src[0] != 'result = 1.0 + 0.0 * x' or src[1] != 'if max_order == 0:\n    return result':
+        raise Refuse("exp: initial value / early return")
+    mv = b[2]
+    if not (isinstance(mv, ast.Assign) and ast.unparse(mv.targets[0]) == 'max_val' and isinstance(mv.value, ast.Call) and ast.unparse(mv.value.func) == 'int'
+            and len(mv.value.args) == 1):
+        raise Refuse("exp: max_val = int(…)")
+    est = ast.unparse(mv.value.args[0])
+    if est == 'np.sum(np.abs(x.value))':
+        norm = "(x.foldl (fun m q => m + q.abs) (0 : Rat)).floor.toNat"
+    elif est == 'np.max(np.abs(x.value))':
+        norm = "(x.foldl (fun m q => max m q.abs) (0 : Rat)).floor.toNat"
+    else:
+        raise Refuse(f"exp: norm estimate {est}")
+    if src[3] != 'scale = 1' or src[4] != 'if max_val > 1:\n    max_val <<= 1' or src[5] != 'while max_val:\n    max_val >>= 1\n    scale <<= 1':
+        raise Refuse("exp: scaling loops")
+    if src[6] not in ('scaled = x * (1.0 / scale)', 'scaled = 1.0 / scale * x', 'scaled = x / scale'):
+        raise Refuse("exp: scaled operand")
+    if src[7] != 'tmp = 1.0 + 0.0 * x':
+        raise Refuse("exp: tmp")
+    lp = b[8]
+    if not (isinstance(lp, ast.For) and ast.unparse(lp.iter) == 'range(1, max_order)' and len(lp.body) == 1 and isinstance(lp.body[0], ast.If)):
+        raise Refuse("exp: Taylor loop")
+    iv = lp.target.id
+    g = lp.body[0]
+    if ast.unparse(g.test) != 'np.any(np.abs(tmp.value) > _settings._eps)' or [ast.unparse(z) for z in g.orelse] != ['break']:
+        raise Refuse("exp: guard / break")
+    body = [ast.unparse(z) for z in g.body]
+    upd = {f'tmp = tmp * scaled * (1.0 / {iv})': f"C.smul (1 / (({iv} : Nat) : Rat)) (C.gp tmp scaled)",
+           f'tmp = tmp * scaled / {iv}': f"C.smul (1 / (({iv} : Nat) : Rat)) (C.gp tmp scaled)",
+           f'tmp = 1.0 / {iv} * (tmp * scaled)': f"C.smul (1 / (({iv} : Nat) : Rat)) (C.gp tmp scaled)"}
+    if len(body) != 2 or body[0] not in upd or body[1] not in ('result = result + tmp', 'result += tmp'):
+        raise Refuse("exp: update statements")
+    if src[9] != 'while scale > 1:\n    result = result * result\n    scale >>= 1' or src[10] != 'return result':
+        raise Refuse("exp: squaring loop / return")
+    return (f"def exp_scale (maxVal : Nat) : Nat :=\n"
+            f"  let mv := if maxVal > 1 then maxVal <<< 1 else maxVal\n"
+            f"  let rec go (fuel m sc : Nat) : Nat :=\n    match fuel with\n    | 0 => sc\n    | fuel + 1 => if m = 0 then sc else go fuel (m >>> 1) (sc <<< 1)\n"
+            f"  go (mv + 1) mv 1\n"
+            f"def exp_series (C : Ctx) (eps : Rat) (maxOrder : Nat) (x : MV) : MV :=\n"
+            f"  let result0 := {one0}\n  if maxOrder = 0 then result0 else\n"
+            f"  let scale := exp_scale ({norm})\n"
+            f"  let scaled := C.smul (1 / (scale : Rat)) x\n"
+            f"  let st := (List.range' 1 (maxOrder - 1)).foldl (fun (st : MV × MV × Bool) ({iv} : Nat) =>\n"
+            f"    let (res, tmp, stop) := st\n    if stop then st\n"
+            f"    else if tmp.any (fun q => decide (q.abs > eps)) then\n"
+            f"      let tmp' := {upd[body[0]]}\n      (C.add res tmp', tmp', false)\n"
+            f"    else (res, tmp, true)) (result0, result0, false)\n"
+            f"  let rec sq (fuel sc : Nat) (r : MV) : MV :=\n    match fuel with\n    | 0 => r\n    | fuel + 1 => if sc > 1 then sq fuel (sc >>> 1) (C.gp r r) else r\n"
+            f"  sq (scale + 1) scale st.1\n")
+
+
 def main():
     repo = Path(sys.argv[sys.argv.index('--repo') + 1]) if '--repo' in sys.argv else Path('/repo')
     out = ["import Model.Series\n\n/-! GENERATED from the current source by translate/series2lean.py — do not edit -/\n"
@@ -110,6 +172,25 @@ def main():
             status[key] = dict(status='refused', reason=str(r))
         except Exception as r:
             status[key] = dict(status='refused', reason=repr(r)[:200])
+    try:
+        out.append(exp_series(tree))
+        out.append("end GenSeries\n"
+                   "theorem series_exp_go_eq (fuel m sc : Nat) : GenSeries.exp_scale.go fuel m sc = Model.Ctx.expScale.go fuel m sc := by\n"
+                   "  induction fuel generalizing m sc with\n  | zero => rfl\n  | succ k ih => simp only [GenSeries.exp_scale.go, Model.Ctx.expScale.go, ih]\n"
+                   "theorem series_exp_sq_eq (C : Model.Ctx) (fuel sc : Nat) (r : Model.MV) : GenSeries.exp_series.sq C fuel sc r = Model.Ctx.expSeries.sq C fuel sc r := by\n"
+                   "  induction fuel generalizing sc r with\n  | zero => rfl\n  | succ k ih => simp only [GenSeries.exp_series.sq, Model.Ctx.expSeries.sq, ih]\n"
+                   "namespace GenSeries\n")
+        thms.append(('series_exp',
+                     "theorem series_exp_eq (C : Model.Ctx) (eps : Rat) (N : Nat) (x : Model.MV) : GenSeries.exp_series C eps N x = C.expSeries eps N x := by\n"
+                     "  have hgo : @GenSeries.exp_scale.go = @Model.Ctx.expScale.go := by funext f m s; exact series_exp_go_eq f m s\n"
+                     "  have hsq : @GenSeries.exp_series.sq = @Model.Ctx.expSeries.sq := by funext C f s r; exact series_exp_sq_eq C f s r\n"
+                     "  unfold GenSeries.exp_series Model.Ctx.expSeries GenSeries.exp_scale Model.Ctx.expScale Model.Ctx.sumAbsFloor\n"
+                     "  rw [hgo, hsq]\n"))
+        status['series_exp'] = dict(status='ok')
+    except Refuse as r:
+        status['series_exp'] = dict(status='refused', reason=str(r))
+    except Exception as r:
+        status['series_exp'] = dict(status='refused', reason=repr(r)[:200])
     out.append("end GenSeries\n\n")
     names = {}
     for name, t in thms:
